@@ -151,12 +151,17 @@ func tempState(pr *hc.Proc, tr *tracker) string {
 	for t := 0; t < nTemps; t++ {
 		ts[t] = "-"
 		if tr.temp[t] {
-			v, err := pr.Query("SELECT v FROM " + tempName(t))
+			v, err := pr.Query("SELECT * FROM " + tempName(t))
 			if err != nil {
 				ts[t] = "?" + err.Error()
 				continue
 			}
-			ts[t] = rowsOf(v.RecordLen(), func(i int) string { return hc.StrOf(hc.ViewCell(v, i, 0)) })
+			// the header is part of the table: `h<k>` = the name its second column has now (STDIN has none: h0)
+			hdr := "h0"
+			if len(v.Header) > 1 {
+				hdr = v.Header[1].Column
+			}
+			ts[t] = hdr + "/" + rowsOf(v.RecordLen(), func(i int) string { return hc.StrOf(hc.ViewCell(v, i, 0)) })
 		}
 	}
 	return "temps:" + strings.Join(ts, ";")
@@ -184,13 +189,15 @@ type op struct {
 func dmlSQL(target, kind string, arg int) string {
 	switch kind {
 	case "append":
-		return fmt.Sprintf("INSERT INTO %s VALUES (%d);", target, arg)
+		return fmt.Sprintf("INSERT INTO %s (v) VALUES (%d);", target, arg)
 	case "delwhere":
 		return fmt.Sprintf("DELETE FROM %s WHERE v = %d;", target, arg)
 	case "incr":
 		return fmt.Sprintf("UPDATE %s SET v = v + 1;", target)
 	case "setlb":
 		return fmt.Sprintf("ALTER TABLE %s SET LINE_BREAK TO %s;", target, []string{"LF", "CRLF"}[arg%2]) // CR is left out: csvq cannot read CR files back (known finding F24 of C02)
+	case "renhdr":
+		return fmt.Sprintf("ALTER TABLE %s RENAME h%d TO h%d;", target, arg%2, 1-arg%2)
 	case "incrfail":
 		// fails at the first row holding arg — after the rows in front of it were already assigned
 		return fmt.Sprintf("UPDATE %s SET v = CASE WHEN v = %d THEN 1 / (v - v) ELSE v + 1 END;", target, arg)
@@ -213,6 +220,68 @@ func run(seed int64, n int, dir string, _ []string) {
 	}
 	for h := 0; h < n; h++ {
 		oneHistory(g, o, scratch, bin, h)
+	}
+	blockTemps(g, o, 20+n/10)
+}
+
+// blockTemps: COMMIT and ROLLBACK treat a temporary table the same wherever it was declared — at the top level,
+// or inside the body of an IF, a WHILE, a cursor loop or nested ones, while that block is still running.  The
+// same statement sequence is run in every placement; what the table holds at the end must not depend on it
+// (the top-level placement is the one the model decides in the main stream).
+func blockTemps(g *hc.Gen, o *hc.Out, rounds int) {
+	for r := 0; r < rounds; r++ {
+		var ops []string
+		hdr := 0
+		for k, n := 0, 3+g.Intn(8); k < n; k++ {
+			switch g.Intn(9) {
+			case 0, 1, 2:
+				ops = append(ops, fmt.Sprintf("INSERT INTO bt (v) VALUES (%d);", g.Intn(9)))
+			case 3:
+				ops = append(ops, "UPDATE bt SET v = v + 1;")
+			case 4:
+				ops = append(ops, fmt.Sprintf("DELETE FROM bt WHERE v = %d;", g.Intn(9)))
+			case 5:
+				ops = append(ops, fmt.Sprintf("ALTER TABLE bt RENAME h%d TO h%d;", hdr, 1-hdr)) // may fail after a ROLLBACK: identically in every placement
+				hdr = 1 - hdr
+			case 6, 7:
+				ops = append(ops, "COMMIT;")
+			default:
+				ops = append(ops, "ROLLBACK;")
+			}
+		}
+		ops = append(ops, "SELECT * FROM bt;")
+		decl := "DECLARE bt VIEW (v, h0);"
+		body := strings.Join(ops, " ")
+		forms := [][2]string{
+			{"top", decl + " " + body},
+			{"if", "IF 1 = 1 THEN " + decl + " " + body + " END IF;"},
+			{"while", "VAR @i := 0; WHILE @i < 1 DO " + decl + " " + body + " @i := @i + 1; END WHILE;"},
+			{"cursor_loop", "DECLARE cu CURSOR FOR SELECT 1; OPEN cu; VAR @x; WHILE @x IN cu DO " + decl + " " + body + " END WHILE; CLOSE cu;"},
+			{"if_in_while", "VAR @i := 0; WHILE @i < 1 DO IF 1 = 1 THEN " + decl + " " + body + " END IF; @i := @i + 1; END WHILE;"},
+			{"declared_outside_if", decl + " IF 1 = 1 THEN " + body + " END IF;"},
+			{"case", "CASE WHEN 1 = 1 THEN " + decl + " " + body + " END CASE;"},
+		}
+		ref := ""
+		for i, f := range forms {
+			pr := hc.NewProc("")
+			out, err := pr.Exec(f[1])
+			pr.Close()
+			got := out
+			if err != nil {
+				got += "\nERROR: " + err.Error()
+			}
+			// the notices name nothing placement-specific; lines are compared as they are
+			if i == 0 {
+				ref = got
+				continue
+			}
+			if got != ref {
+				o.Law("temporary_table_restore_depends_on_block", map[string]interface{}{"placement": f[0], "program": f[1], "output": got, "top_level_output": ref})
+			}
+			o.Eval()
+		}
+		o.NonTrivial(fmt.Sprintf("blocktemps:%d:%v", len(ops), strings.Contains(body, "ROLLBACK")))
+		o.Count("block_temp_rounds")
 	}
 }
 
@@ -469,10 +538,13 @@ func oneHistory(g *hc.Gen, o *hc.Out, scratch, bin string, h int) {
 				if t == 2 {
 					continue // STDIN is not declared: it exists from the start of the run, or not at all
 				}
-				line, sql = fmt.Sprintf("c01.dtemp %d", t), fmt.Sprintf("DECLARE tt%d VIEW (v);", t)
+				line, sql = fmt.Sprintf("c01.dtemp %d", t), fmt.Sprintf("DECLARE tt%d VIEW (v, h0);", t)
 			case c < 16:
 				pickTemp(true)
 				k, a := kinds[g.Intn(len(kinds))], g.Intn(5)
+				if t != 2 && g.Intn(4) == 0 {
+					k = "renhdr" // the header of a temporary table is restored by ROLLBACK like its records
+				}
 				line, sql = fmt.Sprintf("c01.dmltemp %d %s %d", t, k, a), dmlSQL(tempName(t), k, a)
 			case c < 17:
 				line, sql = "c01.commit", "COMMIT;"
